@@ -222,6 +222,15 @@ class FakeNet:
         _select.select = self._real_select
 
 
+RUN_LIMIT_S = 150
+AFTER_HANG_LIMIT_S = 8
+HANGS = [0]
+
+
+class Hang(BaseException):
+    pass
+
+
 def run_main(argv, net):
     """run the real main() (as the ssh-audit.py wrapper does) -> (exit status, stdout text)"""
     import ssh_audit.ssh_audit as sa
@@ -236,16 +245,32 @@ def run_main(argv, net):
     old = sys.argv
     sys.argv = ['ssh-audit.py'] + list(argv)
     status = None
+    # watchdog: the scripted network answers at once and never blocks, so an audit still running after RUN_LIMIT_S seconds of wall time
+    # is not waiting for the peer, it is looping; it is stopped and reported with the status 'hang' (no oracle accepts that status)
+    import signal, threading
+    watch = threading.current_thread() is threading.main_thread() and hasattr(signal, 'setitimer')
+    if watch:
+        def _on_alarm(signum, frame):
+            raise Hang('audit still running after %d s against a peer that never blocks' % (RUN_LIMIT_S if not HANGS[0] else AFTER_HANG_LIMIT_S))
+        old_handler = signal.signal(signal.SIGALRM, _on_alarm)
+        signal.setitimer(signal.ITIMER_REAL, RUN_LIMIT_S if not HANGS[0] else AFTER_HANG_LIMIT_S)      # (once one run hung, later ones get little patience)
     try:
         with net, contextlib.redirect_stdout(buf), contextlib.redirect_stderr(io.StringIO()):
             try:
                 status = sa.main()
             except SystemExit as e:
                 status = e.code
+            except Hang as e:
+                status = 'hang'
+                HANGS[0] += 1
+                print(str(e))
             except Exception:
                 status = exitcodes.UNKNOWN_ERROR
                 print(traceback.format_exc())
     finally:
+        if watch:
+            signal.setitimer(signal.ITIMER_REAL, 0)
+            signal.signal(signal.SIGALRM, old_handler)
         sys.argv = old
     return status, buf.getvalue()
 
